@@ -79,6 +79,8 @@ def cases(rng, tier, Case):
             dl2 = dl
         d2 = "[%s]: /second" % dl2
         place = rng.choice(["before", "after", "quote", "item", "both", "wide", "lazy", "tabend"])
+        if rng.random() < 0.06 and "\n" not in dl:
+            place = "deep"
         if place == "before":
             doc = d1 + "\n\n" + use
         elif place == "after":
@@ -98,12 +100,24 @@ def cases(rng, tier, Case):
                 continue
             cont = rng.choice(["[%s]:\n/first 'T1'", "[%s]: /first\n'T1'", "[%s]:\n/first\n'T1'"]) % dl
             doc = rng.choice(["> ", "- ", "> - ", "1. "]) + cont + "\n\n" + use
+        elif place == "deep":
+            # under many containers, still below the nesting limit (seed C13-9: a limit reached early skips the definition)
+            k = rng.choice([20, 33, 49, 50, 51, 60, 75, 90, 97])
+            unit = rng.choice(["- ", "> ", "1. ", "- > "])
+            doc = unit * ((k if rng.random() < 0.8 else k // 2) // (2 if ">" in unit and "-" in unit else 1)) + d1 + "\n\n" + use
         elif place == "tabend":
             doc = d1 + rng.choice(["\t", " \t", "\t "]) + "\n[zz9]: /other\n\n" + use
         else:
             doc = d1 + "\n" + d2 + "\n\n" + use + "\n\n" + d2
         doc = mdgen.clean_utf8(doc)
         res.append(Case("parse Cs 100 TR %s" % hx(doc), "resolve-" + place, {"dl": dl, "ul": ul, "form": form, "src": hx(doc), "dl2": dl2 if place == "both" else None}))
+    # long labels: the limit is 999 characters, not bytes (seed C13-10)
+    for ch, up, cnt in (("я", "Я", 500), ("я", "Я", 998), ("é", "É", 700), ("a", "A", 999), ("日", "日", 400), ("ß", "SS", 499), ("𝄞", "𝄞", 300), ("σ", "Σ", 512)):
+        for form in ("shortcut", "full"):
+            dl, ul = ch * cnt, up * (cnt if len(up) == 1 else cnt)
+            use = "[%s]" % ul if form == "shortcut" else "[t][%s]" % ul
+            doc = "[%s]: /first 'T1'\n\n%s" % (dl, use)
+            res.append(Case("parse Cs 100 TR %s" % hx(doc), "resolve-long", {"dl": dl, "ul": ul, "form": form, "src": hx(doc), "dl2": None}))
     # every character with a non-trivial case mapping (from the tables dumped from the implementation), alone and in context
     import lib as _lib
     cased = []
